@@ -69,7 +69,7 @@ claim("C12", "exploration",
       "19 programs reaching CREATE/CREATE2 (top-level create, ordinary contract, nested call, delegatecall, staticcall, delegated EOA top-level and nested, delegated EOA calling an ordinary factory, ordinary contract delegatecalling the delegate's code, delegated create followed by the account's own transaction, in-block delegation) on seven rule sets (Byzantium..Amsterdam), guard on and off, designators present and absent, sequential and parallel path. Where no create runs in a delegated context the result must be bit-identical to stock revm; otherwise identical to stock revm on the same program with the delegate target's create opcode replaced by an undefined opcode, modulo the halt reason. The opcode sweep executes every opcode byte after a fixed stack priming with the guard on against stock revm (result, gas, output).",
       "DESIGN.md §4 C12", SCHED_NOTE)
 claim("C13", "exploration",
-      "bounded exhaustive enumeration of reserve blocks (debit kind x variant {plain, inner revert, credit before, authorisation in the transaction, funded by an earlier transaction, refunded, reached through an ordinary contract, two debits, create transaction} x boundary balance x number of later own transactions) x policy x paths x deviation-bounded schedule DFS, oracle = independent evaluation of the rule + stock revm + forced-sequential relation; not covered: a delegated account sending a valued transaction to itself (seeded C13e, DESIGN 11.6)",
+      "bounded exhaustive enumeration of reserve blocks (debit kind x variant {plain, inner revert, credit before, authorisation in the transaction, funded by an earlier transaction, refunded, reached through an ordinary contract, two debits, create transaction, valued self-call of the delegated account} x boundary balance x number of later own transactions) x policy x paths x deviation-bounded schedule DFS, oracle = independent evaluation of the rule + stock revm + forced-sequential relation",
       "The rule (violation iff a surviving net debit leaves the delegated account below min(balance before the first debit, saturating sum of the maximum costs of its later own transactions)) is evaluated independently from the block parameters. No violation or policy off: the observation must equal stock revm. Violation: a charged top-level Revert with empty output and the gas the execution spent, no state but nonce/fee/authorisation effects, the account keeps its balance, its later transactions all execute, and the observation equals the forced-sequential run. Includes exact / exact-1 boundary balances, inner reverts, credits before the debit, refunded debits, authorisation in the debiting transaction and a balance that only an earlier in-block transfer provides (stale speculative read).",
       "DESIGN.md §4 C13", SCHED_NOTE)
 
